@@ -154,7 +154,7 @@ class Sandbox(object):
         return Path(name), ab, "path_rel"
 
 
-NAMES = ["out", "a.b", "x.y.z", "with space", "ünï"]
+NAMES = ["out", "a.b", "x.y.z", "with space", "ünï", "frame_{id}", "scan{}", "sub{0}.take.1"]
 
 
 def undirected_edges(s):
@@ -215,6 +215,24 @@ def w_landmarks(ctx, rng, i):
                 obj = ms.LabelledPointUndirectedGraph(obj.points, obj.adjacency_matrix, masks)
             if cls == "LabelledPointUndirectedGraph" and rng.random() < 0.4:
                 obj = with_empty_label(rng, obj)
+            special = rng.random()
+            if special < 0.12:
+                # a vertex joined to itself (a closed one-point contour) is an edge like any other
+                n_ = int(rng.integers(3, 9))
+                E_ = gen.random_undirected_edges(rng, n_) + [(int(v), int(v)) for v in rng.choice(n_, int(rng.integers(1, 3)), replace=False)]
+                obj = ms.PointUndirectedGraph(gen.points(rng, n_, d), gen.adjacency(n_, E_, True))
+            elif special < 0.24 and d == 2:
+                # a grid mesh whose triangle list is stored compactly (the narrowest integer type that holds the vertex indices)
+                if rng.random() < 0.6:
+                    shp_, dt_ = (int(rng.integers(5, 9)), int(rng.integers(5, 9))), np.uint8
+                else:
+                    shp_, dt_ = (int(rng.integers(17, 21)), int(rng.integers(17, 21))), np.uint16
+                gm = ms.TriMesh.init_2d_grid(shp_)
+                obj = ms.TriMesh(gm.points + rng.normal(scale=0.05, size=gm.points.shape), trilist=np.asarray(gm.trilist).astype(dt_), copy=False)
+            elif special < 0.32 and cls == "TriMesh" and obj.n_points >= 4:
+                # a mesh with a collapsed triangle (two of its corners are the same vertex)
+                tl_ = np.vstack([np.asarray(obj.trilist), [[2, 2, 3]]])
+                obj = ms.TriMesh(obj.points, trilist=tl_)
             groups = {"LJSON": obj}
         else:
             lm = LandmarkManager()
